@@ -459,6 +459,14 @@ func (r *Runner) genTx(maxIn, maxOut int) (*tx.Tx, bool) {
 		copy(po.Hash[:], r.bytesN(32))
 		t.Inputs[i] = &tx.Input{PrevOut: po, Script: r.bytesN(n), Sequence: r.u32()}
 	}
+	// two inputs naming the same outpoint: not a valid spend, but a well-formed transaction on the wire
+	if nIn >= 2 && r.rng.Intn(12) == 0 {
+		a, b := r.rng.Intn(nIn), r.rng.Intn(nIn)
+		if a != b {
+			dup := *t.Inputs[a].PrevOut
+			t.Inputs[b].PrevOut = &dup
+		}
+	}
 	t.Outputs = make([]*tx.Output, nOut)
 	for i := range t.Outputs {
 		n, b := r.scriptLen()
